@@ -701,6 +701,18 @@ def check_covmodel_funcs(ctx, c):
             model.anis = an
             model.angles = ag
             getattr(gs, name)(dim=dim, len_scale=ls, anis=an, angles=ag, **d.get("opt", {}))
+            # the same arguments for the other coordinate configurations (their setters rewrite parts of anis / angles)
+            if common.max_valid_dim(name) >= 3:
+                an3 = w.add("anis_arr(latlon)", np.ascontiguousarray(rng.uniform(1.5, 4, size=3)))
+                ag6 = w.add("angles_arr(latlon)", np.ascontiguousarray(rng.uniform(-1, 1, size=6)))
+                for cfg in (dict(latlon=True), dict(latlon=True, temporal=True), dict(temporal=True, spatial_dim=2)):
+                    try:
+                        m2 = getattr(gs, name)(anis=an3, angles=ag6, **cfg, **d.get("opt", {}))
+                        m2.anis = an3
+                        m2.angles = ag6
+                        m2.len_scale = w.add("len_scale_list(cfg)", np.ascontiguousarray(rng.uniform(1, 3, size=4))) if False else m2.len_scale
+                    except ValueError:
+                        pass
     w.verify(f"CovModel functions", model=name)
     if c["layout"] != "alias":
         ctx.trivial()
